@@ -86,10 +86,18 @@ class _SiteFlow(MustFlow):
     def refine(self, test, branch, state):
         # if X.attr is not None: N.attr = X.attr   -- on the other side X.attr is None, which is what the
         # constructor of N already stored
+        txt = None
         if isinstance(test, ast.Compare) and len(test.ops) == 1 and isinstance(test.comparators[0], ast.Constant) \
                 and test.comparators[0].value is None and isinstance(test.ops[0], (ast.Is, ast.IsNot)) and \
                 (isinstance(test.ops[0], ast.Is) == branch):
             txt = ntext(test.left)
+        elif isinstance(test, (ast.Name, ast.Attribute)) and branch is False:
+            txt = ntext(test)            # `if X.attr:` -- on the other side it is falsy: None, as the constructor left it
+        if txt is not None:
+            for f in list(state):
+                if f[0] == 'alias' and f[1] == txt:
+                    txt = f[2]           # the test is on a local name for X.attr
+                    break
             for f in list(state):
                 if f[0] == 'need' and txt == '%s.%s' % (f[3], f[2]) and \
                         self._ctor_default_none(self.site_cls.get(f[4], ''), f[2]):
